@@ -1008,6 +1008,10 @@ impl<'a> ZipFile<'a> {
 
 impl<'a> Read for ZipFile<'a> {
     fn read(&mut self, buf: &mut [u8]) -> io::Result<usize> {
+        // (Nothing can be asked of a decoder with no room for output - zstd reports an error.)
+        if buf.is_empty() {
+            return Ok(0);
+        }
         self.get_reader().read(buf)
     }
 }
